@@ -137,6 +137,27 @@ func runC01(o *Out, r *rand.Rand) {
 		g := genMessage(r, thorough())
 		c01Message(o, g)
 	}
+	// payloads of several MiB that compress extremely well (zero pages, one short record repeated), with
+	// and without compression: both encoders, round trip – no model line, the frames are long
+	for i, sz := range []int{1<<20 + 1, 3 << 20, 5<<20 + 7} {
+		for kind := 0; kind < 2; kind++ {
+			g := genMessage(r, false)
+			ct := byte(1) // gzip
+			if i == 0 && kind == 1 {
+				ct = 0
+			}
+			g.hdr[2] = (g.hdr[2] &^ 0x1C) | (ct << 2)
+			g.payload = make([]byte, sz)
+			if kind == 1 {
+				rec := []byte(fmt.Sprintf("record-%d;", r.Intn(1000)))
+				for j := range g.payload {
+					g.payload[j] = rec[j%len(rec)]
+				}
+			}
+			o.Count("msg.huge-compressible")
+			c01Message(o, g)
+		}
+	}
 	// every total frame length in a range covering all levels of the encoder's buffer pool (and
 	// beyond its largest level): both encoders, round trip – no model line, the frames are long
 	hi := 4700
